@@ -273,3 +273,23 @@ package rlp
 //@   property C08
 //@   requires s != nil && etypeinfo != nil && etypeinfo.decoder != nil
 //@   ensures [valueseen] err == nil && ghost(elemdec) == old(ghost(elemdec)) ==> @select(ghost(lastkind), ref(s)) != Byte
+
+// ---------------------------------------------------------------------------------------------
+// The coder cache (C08): which coder a type gets depends on the struct tags of the field it sits in (tail: no
+// list header; nil: optional pointer), so the cache must answer under the exact (type, tags) key. An entry
+// answered for another key makes the encoding of a value depend on which use of the type the process saw first.
+//@ func genTypeInfo
+//@   option trusted
+//@   ensures [fresh] result1 == nil ==> result0 != nil
+//@   ensures [keeps] forall k typekey :: old(has(typeCache, k) && typeCache[k] != nil) ==> has(typeCache, k) && typeCache[k] == old(typeCache[k])
+//@   modifies entries(typeCache), heap("storage/rlp.typeinfo")
+
+//@ func cachedTypeInfo1
+//@   property C08
+//@   requires [env!init] typeCache != nil
+//@   ensures [exact] result1 == nil ==> result0 != nil && (forall k typekey :: k.Type == typ && k.tags == tags ==> typeCache[k] == result0)
+
+//@ func cachedTypeInfo
+//@   property C08
+//@   requires [env!init] typeCache != nil
+//@   ensures [exact] result1 == nil ==> result0 != nil && (forall k typekey :: k.Type == typ && k.tags == tags ==> typeCache[k] == result0)
